@@ -34,6 +34,11 @@ def mode_of(callee):
     return "W", blocking  # mutex lock or rwlock write
 
 
+def _payload_only(proj):
+    """projection that only selects the payload of an enum variant: ['@Some', '.0']"""
+    return bool(proj) and proj[0].startswith("@") and all(e.startswith("@") or re.fullmatch(r"\.\d+", e) for e in proj)
+
+
 class LockModel:
     def __init__(self, facts, st):
         self.facts = facts
@@ -241,7 +246,8 @@ class LockModel:
                     rv = s["rv"]
                     # moves out of a bearing local
                     src = None
-                    if rv["k"] == "use" and rv["op"]["k"] == "move" and not rv["op"]["pl"].get("p"):
+                    if rv["k"] == "use" and rv["op"]["k"] == "move" and (not rv["op"]["pl"].get("p") or _payload_only(rv["op"]["pl"]["p"])):
+                        # whole-local move, or the payload of an Option / Result holder (`let Some(guard) = opt else ..`)
                         src = rv["op"]["pl"]["l"]
                     elif rv["k"] == "agg":
                         for o in rv["ops"]:
@@ -582,39 +588,108 @@ def l3(facts, rep, M):
     return n
 
 
+def _held_any_mode(facts, M, body, bb, cls, depth=0, seen=None):
+    """like effectively_held, for any mode of cls (a helper taking `&Shared` / `&mut Shared` is fine when every caller holds
+    the Nomt.shared guard across the call)"""
+    seen = seen if seen is not None else set()
+    at_term, entry = M.held(body)
+    if any(c == cls for (_l, c, _m) in (at_term.get(bb, set()) | entry.get(bb, set()))):
+        return True
+    if depth > 3 or body.id in seen or body.kind == "Closure":
+        return False
+    seen.add(body.id)
+    callers = [x for x in facts.callers().get(body.id, []) if x[2] == "call"]
+    if not callers or body.vis == "pub":
+        return False
+    return all(_held_any_mode(facts, M, facts.bodies[cid], cb, cls, depth + 1, seen) for (cid, cb, k) in callers)
+
+
+def _result_checked(body, b):
+    """the Result produced by the call at b goes into `?` / unwrap / expect"""
+    d = body.term(b)["dest"]
+    if d.get("p"):
+        return False
+    for b2, t2 in body.calls():
+        c2 = t2.get("callee") or ""
+        if (c2.endswith("Try>::branch") or c2.endswith("::unwrap") or c2.endswith("::expect")) and t2["args"]:
+            if any(r.kind == "call" and r.bb == b for r in trace(body, t2["args"][0])):
+                return True
+    return False
+
+
 def l5(facts, rep, M):
     """every comparison of the committed root with a changeset's base and every store to the committed root
-    happens under Nomt.shared; every store is preceded, in the same function, by a comparison, and both lie
-    inside one acquisition of the access write guard (held in that function, or by every caller of a helper)"""
+    happens under Nomt.shared; every store is preceded by a comparison, and both lie inside one acquisition of the access
+    write guard.  Location-independent: a comparison / store that sits in a helper working on a `&Shared` it was handed
+    (e.g. `Shared::ensure_root_is(&self, ..) -> Result`, `Shared::advance(&mut self, ..)`) counts at the helper's call sites."""
     n = 0
-    found_fns = 0
+    direct = {}
     for body in facts.bodies.values():
         if body.crate != "nomt" or "::tests::" in body.id or body.derived:
             continue
-        checks = []
+        checks, stores, via_param = [], [], True
         for b, t in body.calls():
             c = t.get("callee") or ""
             if (c.endswith("PartialEq::ne") or c.endswith("PartialEq::eq") or c.endswith("PartialEq>::ne") or c.endswith("PartialEq>::eq")) and t["args"]:
                 if all(body.op_ty(a).replace("&", "").strip() == "nomt::Root" for a in t["args"]):
-                    if any(any(r.path and r.path[-1] == ("root", "nomt::Shared") for r in trace(body, a)) for a in t["args"]):
+                    hit = [r for a in t["args"] for r in trace(body, a) if r.path and r.path[-1] == ("root", "nomt::Shared")]
+                    if hit:
                         checks.append((b, t.get("ln")))
-        stores = []
+                        if not all(r.kind == "param" for r in hit):
+                            via_param = False
         for b in range(body.n):
             if body.is_cleanup(b):
                 continue
             for s_ in body.stmts(b):
                 if s_["k"] == "assign" and fields_of(s_["pl"])[-1:] == ("root",) and (s_["pl"].get("o") or [""])[-1] == "nomt::Shared":
                     stores.append((b, s_.get("ln")))
+                    if not (1 <= s_["pl"]["l"] <= body.argc):
+                        via_param = False
+        if checks or stores:
+            direct[body.id] = (checks, stores, via_param and body.kind != "Closure")
+    helpers = {f for f, (c, st, vp) in direct.items() if vp and [x for x in facts.callers().get(f, []) if x[2] == "call"]}
+    # what a helper contributes at its call sites: a guard-like check (dominates the helper's Ok returns) and/or a store
+    contrib = {}
+    for h in helpers:
+        hb = facts.bodies[h]
+        (checks, stores, _vp) = direct[h]
+        oks = hb.ok_returns()
+        rem = hb.ok_removed()
+        is_check = bool(checks) and bool(oks) and all(any(hb.dominates(cb, r, removed=rem) for (cb, _ln) in checks) for r in oks) and hb.local_ty(0).startswith("core::result::Result<")
+        contrib[h] = (is_check, bool(stores))
+    found_fns = 0
+    for body in facts.bodies.values():
+        if body.crate != "nomt" or "::tests::" in body.id or body.derived:
+            continue
+        checks, stores = [], []
+        if body.id in direct and body.id not in helpers:
+            checks, stores = list(direct[body.id][0]), list(direct[body.id][1])
+        for b, t in body.calls():
+            c = t.get("callee") or ""
+            if c in helpers and not body.is_cleanup(b):
+                (is_check, is_store) = contrib[c]
+                if is_check and _result_checked(body, b):
+                    checks.append((b, t.get("ln")))
+                if is_store:
+                    stores.append((b, t.get("ln")))
+        short = body.id.split("::", 1)[1]
+        if body.id in helpers:
+            found_fns += 1
+            for (b, ln) in direct[body.id][0] + direct[body.id][1]:
+                n += 1
+                what = "comparison" if (b, ln) in direct[body.id][0] else "store"
+                rep.check(_held_any_mode(facts, M, body, b, SHARED), "L5", short, "%s-under-shared" % what, "the root %s at %s sits in a helper that is not always called with the Nomt.shared mutex held" % (what, ln), site=ln, detail="helper on a `&Shared` it is handed: every caller holds Nomt.shared across the call")
         if not checks and not stores:
             continue
-        found_fns += 1
-        short = body.id.split("::", 1)[1]
+        if body.id not in helpers:
+            found_fns += 1
         at_term, entry = M.held(body)
-        for (b, ln) in checks + stores:
-            n += 1
-            what = "comparison" if (b, ln) in checks else "store"
-            H = entry.get(b, set()) | at_term.get(b, set())
-            rep.check(any(cls == SHARED for (_l, cls, _m) in H), "L5", short, "%s-under-shared" % what, "the root %s at %s is not performed under the Nomt.shared mutex" % (what, ln), site=ln, detail="root %s at %s under Nomt.shared" % (what, ln))
+        if body.id not in helpers:
+            for (b, ln) in checks + stores:
+                n += 1
+                what = "comparison" if (b, ln) in checks else "store"
+                H = entry.get(b, set()) | at_term.get(b, set())
+                rep.check(any(cls == SHARED for (_l, cls, _m) in H), "L5", short, "%s-under-shared" % what, "the root %s at %s is not performed under the Nomt.shared mutex" % (what, ln), site=ln, detail="root %s at %s under Nomt.shared" % (what, ln))
         for (sb, sln) in stores:
             n += 1
             doms = [(cb, cln) for (cb, cln) in checks if cb != sb and body.dominates(cb, sb)]
@@ -635,7 +710,7 @@ def l5(facts, rep, M):
                     ok = True
                     why = "helper: every caller holds the access write guard across the call"
             rep.check(ok, "L5", short, "one-write-guard", "the previous-root check and the root update in %s are not covered by one and the same access write-guard acquisition: a competing commit can slip in between" % body.id, site=sln, detail=why)
-    rep.floor("L5 functions with root check / store", found_fns, 4)
+    rep.floor("L5 functions with root check / store", found_fns, 2)
     return n
 
 
